@@ -280,6 +280,14 @@ func (c *Ctx) RunSched(sc Sched) {
 		st.Exhaustive = false
 		st.CapNote = fmt.Sprintf("stopped after %d executions (cap/deadline)", ex.Execs)
 	}
+	if ex.Diverged > 0 {
+		st.Exhaustive = false
+		st.CapNote = fmt.Sprintf("%d of %d executions did not follow their schedule prefix (real I/O in the loop: e.g. a loopback connect timing out under load) and were skipped", ex.Diverged, ex.Execs+ex.Diverged)
+		if ex.Diverged*5 > ex.Execs {
+			// that many cannot be environment noise: the code under test is not determined by the schedule
+			c.Violation(sc.Name, "harness-schedule-not-determining", st.CapNote, nil, nil, nil)
+		}
+	}
 	st.FinishOutcomes(outs)
 	for _, v := range ex.Violations {
 		c.Violation(sc.Name, v.Sig, v.Msg, v.Choices, nil, v.Trace)
